@@ -84,6 +84,14 @@ def run(chk, scratch):
                 ("clean-start", ["-g", gtf, "--complete_genedb", "--bam", bam, "--clean_start"], "home_ref", "annotation-cache")]
         for name, files in parts.items():
             runs.append(("bam-" + name, ["-g", gtf, "--complete_genedb", "--bam"] + files, "home_" + name, "alignments"))
+        # the split files named in a YAML description of one experiment (with labels) and in a --bam_list file instead of on the command line
+        with open(os.path.join(d, "exp.yaml"), "w") as f:
+            f.write('[\n  data format: "bam",\n  {\n    name: "%s",\n    long read files: [%s],\n    labels: [%s]\n  }\n]\n' %
+                    (pipeline.PREFIX, ", ".join('"%s"' % os.path.basename(x) for x in parts["random3"]), ", ".join('"rep%d"' % i for i in range(3))))
+        with open(os.path.join(d, "exp.list"), "w") as f:
+            f.write("#%s\n%s\n" % (pipeline.PREFIX, "\n".join(parts["twins-apart"])))
+        runs.append(("bam-random3-yaml", ["-g", gtf, "--complete_genedb", "--yaml", os.path.join(d, "exp.yaml")], "home_yaml", "alignments"))
+        runs.append(("bam-twins-apart-list", ["-g", gtf, "--complete_genedb", "--bam_list", os.path.join(d, "exp.list")], "home_list", "alignments"))
         # the same comparison with the in-memory alignment storage (--high_memory): reference and split run both use it
         runs.append(("ref-hm", ["-g", gtf, "--complete_genedb", "--high_memory", "--bam", bam], "home_ref_hm", None))
         runs.append(("bam-random3-hm", ["-g", gtf, "--complete_genedb", "--high_memory", "--bam"] + parts["random3"], "home_random3_hm", "alignments-hm"))
